@@ -445,7 +445,33 @@ class C06(ModelCheck):
                 break
             self.check_loop_case(res, c)
         res.count("runloop_cases", len(pending))
+        # (C) daylight-saving days: wall clock derived from virtual UTC through zoneinfo
+        dst_cases = [c for i_, c in enumerate(dst_loop_cases()) if i_ % shard_n == shard_i]
+        for c in dst_cases:
+            self.check_dst_case(res, c)
+        res.count("dst_runloop_cases", len(dst_cases))
         return res
+
+    def check_dst_case(self, res, case):
+        try:
+            r = l3.run_case(exec_dst_case, case)
+        except Exception:  # noqa: BLE001
+            import traceback
+
+            res.count("harness_exception")
+            res.errors.append(f"dst harness exception on {json.dumps(case)[:300]}: {traceback.format_exc()[-1200:]}")
+            return
+        res.case({"dst": case}, True)
+        res.klass("dst-runloop")
+        if r["expected"] != r["observed"]:
+            fid = None
+            for f in core.open_findings(PROP):
+                if f["id"] == "C06-period-follows-wall-clock-across-dst" and case["spec"].startswith("period"):
+                    fid = f["id"]
+            if fid:
+                res.known(fid)
+                return
+            res.mismatch("dst-runloop|" + case["spec"].split("(")[0] + "|" + ("legacy" if case["legacy"] else "new"), case, expected=r["expected"], observed=r["observed"])
 
     def check_loop_case(self, res, case):
         try:
@@ -785,6 +811,39 @@ async def exec_loop_case(case):
         why = "error-logged"
     return {"ok": why is None, "why": why or "", "expected": expected + [["startup", exp_start], ["shutdown", exp_shut]],
             "observed": observed + [["startup", startup_runs], ["shutdown", shutdown_runs]] + [e[2][:200] for e in errs[:2]]}
+
+
+def dst_loop_cases():
+    out = []
+    for day in ("2024-03-10", "2024-11-03", "2024-03-11"):
+        for spec in ("cron(0 6 * * *)", "cron(30 7 * * *)", "once(06:00)", "once(4:15:30)", "period(now, 1h)"):
+            for legacy in (False, True):
+                out.append({"day": day, "spec": spec, "legacy": legacy})
+    return out
+
+
+async def exec_dst_case(case):
+    src = (
+        f"@time_trigger({case['spec']!r})\n"
+        "def f(trigger_type=None, trigger_time=None, **kw):\n"
+        "    vrec('t', str(trigger_time))\n"
+    )
+    base = dt.datetime.fromisoformat(case["day"] + " 00:30:00")
+    async with l3.Integ({"hello.py": src}, legacy=case["legacy"], autostart=False, tz=TZ, base_dt=base, dst_clock=True) as it:
+        t0 = it.vt()
+        await it.start()
+        await it.sleep_until(t0 + 9 * 3600 + 0.137)
+        recs = [(round(vt - t0, 1), a[1]) for vt, a, kw in it.records if a[0] == "t"]
+        await it.unload()
+    if case["spec"].startswith("period"):
+        # equally spaced in real (virtual UTC) time: one run per 3600 s, first at the definition instant
+        expected = [float(3600 * k) for k in range(0, 10)]
+        observed = [r_[0] for r_ in recs]
+    else:
+        hh = {"cron(0 6 * * *)": "06:00:00", "cron(30 7 * * *)": "07:30:00", "once(06:00)": "06:00:00", "once(4:15:30)": "04:15:30"}[case["spec"]]
+        expected = [f"{case['day']} {hh}"]
+        observed = [r_[1] for r_ in recs]
+    return {"expected": expected, "observed": observed}
 
 
 ATTRIBUTORS = {"C06-once-yearly-no-rollover": attr_yearly, "C06-feb29-valueerror": attr_feb29}
